@@ -1035,6 +1035,39 @@ Proof. intros. eapply RangeLimit.slowest_is_range_hit; eassumption. Qed.
 Print Assumptions slowest_is_range_hit.
 
 (** ** non-vacuity *)
+(** non-vacuity of first_root_detonation_is_weak: p-(T) = T, e-(T) = 3T (cs^2 = 1/3), p+ = 0,
+    e+ = 1, Tn = 1/2, vw = 7/8: the residual is (5T-7)(9T-7)/(64(1+T)), first zero T- = 7/9 *)
+Example weak_branch_hypotheses_satisfiable :
+  let e := {| Tnucl := 1 / 2; HydroAdmGen.vJ := 0; HydroAdmGen.TMaxLowT := 1; TMaxHydro := 5;
+              TMinHydro := 1 / 200;
+              pHighT := fun _ => 0; pLowT := fun t => t; eHighT := fun _ => 1;
+              eLowT := fun t => 3 * t; wHighT := fun _ => 1; wLowT := fun t => 4 * t;
+              dpLowT := fun _ => 1; deLowT := fun _ => 3; csqLowT := fun _ => 1 / 3;
+              csqHighT := fun _ => 1 / 3 |} in
+  let vw := 7 / 8 in let Tm := 7 / 9 in
+  eHighT e (Tnucl e) = wHighT e (Tnucl e) - pHighT e (Tnucl e) /\
+  (forall t, eLowT e t = wLowT e t - pLowT e t) /\
+  derivable_pt_lim (pLowT e) Tm (dpLowT e Tm) /\ derivable_pt_lim (eLowT e) Tm (deLowT e Tm) /\
+  csqLowT e Tm = dpLowT e Tm / deLowT e Tm /\
+  Tnucl e < Tm /\ (forall t, Tnucl e <= t < Tm -> 0 <= deton_residual e vw t) /\
+  deton_residual e vw Tm = 0 /\
+  0 < deLowT e Tm /\ 0 < eHighT e (Tnucl e) + pHighT e (Tnucl e) /\
+  0 < pHighT e (Tnucl e) + eLowT e Tm /\
+  eHighT e (Tnucl e) - eLowT e Tm <> 0 /\ eHighT e (Tnucl e) + pLowT e Tm <> 0.
+Proof.
+  cbv zeta. unfold deton_residual. cbn.
+  repeat split; try lra.
+  - intro t. ring.
+  - apply derivable_pt_lim_id.
+  - intros eps He. exists (mkposreal 1 Rlt_0_1). intros h Hh _.
+    replace ((3 * (7 / 9 + h) - 3 * (7 / 9)) / h - 3) with 0 by (field; exact Hh).
+    rewrite Rabs_R0. exact He.
+  - intros t [H1 H2].
+    replace (7 / 8 * (7 / 8 * 1) * (1 - 0 - (4 * t - t)) - (0 - t) * (4 * t - t + 0) / (1 - 0 + t))
+      with ((5 * t - 7) * (9 * t - 7) / (64 * (1 + t))) by (field; lra).
+    apply Rmult_le_pos; [|apply Rlt_le, Rinv_0_lt_compat; lra]. nra.
+Qed.
+
 (** template hypotheses: cb2 = 1/4, cb = 1/2, alpha = 1/10 *)
 Example template_hypotheses_satisfiable :
   let e := mk_t_env (1 / 4) (1 / 3) (1 / 10) 1 (1 / 2) (sqrt (1 / 3)) 1 1 1 5 4 (3 / 4) (fun _ _ _ => 1) in
